@@ -65,11 +65,18 @@ def unfold_contraction_generic_tuple(red_op, bin_op, reduced_vars, terms):
             )
 
         if v.red_op in (red_op, ops.null) and bin_op in (v.bin_op, ops.null):
-            red_op = v.red_op if red_op is ops.null else red_op
-            bin_op = v.bin_op if bin_op is ops.null else bin_op
+            new_red_op = v.red_op if red_op is ops.null else red_op
+            new_bin_op = v.bin_op if bin_op is ops.null else bin_op
+            if (
+                new_red_op is not ops.null
+                and new_bin_op is not ops.null
+                and new_red_op is not new_bin_op
+                and (new_red_op, new_bin_op) not in DISTRIBUTIVE_OPS
+            ):
+                continue  # a reduction fuses only with a product it distributes over
             new_terms = terms[:i] + v.terms + terms[i + 1 :]
             return Contraction(
-                red_op, bin_op, reduced_vars | v.reduced_vars, *new_terms
+                new_red_op, new_bin_op, reduced_vars | v.reduced_vars, *new_terms
             )
 
     return None
